@@ -114,6 +114,21 @@ impl Tr {
     }
 }
 
+/// `rtp_start_port` / `rtp_end_port`, the same fresh range on both endpoints of a point (they share 127.0.0.1).
+#[derive(Clone, Copy, Debug, PartialEq, Eq, PartialOrd, Ord, Serialize, Deserialize, Default)]
+pub enum PortRange {
+    /// not configured (ephemeral ports)
+    #[default]
+    Default,
+    /// 100 ports
+    Wide,
+    /// exactly as many even ports as the two endpoints of the point bind RTP sockets: the last one to bind must find the
+    /// single port that is left
+    Tight,
+    /// one even port more than needed
+    TightPlus1,
+}
+
 #[derive(Clone, Copy, Debug, PartialEq, Eq, PartialOrd, Ord, Serialize, Deserialize)]
 pub enum Latch {
     Off,
@@ -158,6 +173,8 @@ pub struct Point {
     pub latch: Latch,
     pub compat: Compat,
     pub offerer: Side,
+    #[serde(default)]
+    pub range: PortRange,
 }
 
 const MODES: [Mode; 3] = [Mode::WebRtc, Mode::Srtp, Mode::Rtp];
@@ -165,6 +182,7 @@ const MEDIAS: [Media; 5] = [Media::Audio, Media::AudioVideo, Media::Dc, Media::D
 const BUNDLES: [Bundle; 2] = [Bundle::NotOffered, Bundle::Offered];
 const MUXES: [Mux; 2] = [Mux::Require, Mux::Negotiate];
 const ICES: [IceOpt; 2] = [IceOpt::Plain, IceOpt::LiteA];
+const RANGES: [PortRange; 4] = [PortRange::Default, PortRange::Wide, PortRange::Tight, PortRange::TightPlus1];
 const UMUXES: [UMux; 4] = [UMux::Off, UMux::Offerer, UMux::Answerer, UMux::Both];
 const TRS: [Tr; 4] = [Tr::Udp, Tr::UdpTcp, Tr::TcpPassive, Tr::TcpActive];
 const LATCHES: [Latch; 3] = [Latch::Off, Latch::On0, Latch::On3];
@@ -199,6 +217,7 @@ impl Point {
         latch: Latch::Off,
         compat: Compat::Standard,
         offerer: Side::A,
+        range: PortRange::Default,
     };
 
     /// The constraint this point violates, if any. Each constraint is stated by rustrtc itself;
@@ -297,7 +316,7 @@ impl Point {
         self.violated_constraint().is_none()
     }
 
-    fn coords(&self) -> [usize; 11] {
+    fn coords(&self) -> [usize; 12] {
         [
             self.mode as usize,
             self.media as usize,
@@ -310,6 +329,7 @@ impl Point {
             self.latch as usize,
             self.compat as usize,
             self.offerer as usize,
+            self.range as usize,
         ]
     }
 
@@ -320,8 +340,8 @@ impl Point {
 
     fn tag(&self) -> String {
         format!(
-            "mode={:?},media={:?},bundle={:?},mux={:?},ice={:?},tr={:?}/{:?},umux={:?},latch={:?},compat={:?},offerer={:?}",
-            self.mode, self.media, self.bundle, self.mux, self.ice, self.tr_off, self.tr_ans, self.umux, self.latch, self.compat, self.offerer
+            "mode={:?},media={:?},bundle={:?},mux={:?},ice={:?},tr={:?}/{:?},umux={:?},latch={:?},compat={:?},offerer={:?},range={:?}",
+            self.mode, self.media, self.bundle, self.mux, self.ice, self.tr_off, self.tr_ans, self.umux, self.latch, self.compat, self.offerer, self.range
         )
     }
 }
@@ -340,9 +360,11 @@ pub fn all_points() -> Vec<Point> {
                                     for latch in LATCHES {
                                         for compat in COMPATS {
                                             for offerer in SIDES {
-                                                let p = Point { mode, media, bundle, mux, ice, tr_off, tr_ans, umux, latch, compat, offerer };
-                                                if p.valid() {
-                                                    v.push(p);
+                                                for range in RANGES {
+                                                    let p = Point { mode, media, bundle, mux, ice, tr_off, tr_ans, umux, latch, compat, offerer, range };
+                                                    if p.valid() {
+                                                        v.push(p);
+                                                    }
                                                 }
                                             }
                                         }
@@ -366,7 +388,7 @@ pub fn pairwise(all: &[Point], keys: &[u32]) -> Vec<Point> {
         // the per-side transports enter as one compound coordinate, so that every (tr_off, tr_ans) combination is
         // crossed with every value of every other coordinate
         let c0 = p.coords();
-        let c = [c0[0], c0[1], c0[2], c0[3], c0[4], c0[5] * 4 + c0[6], c0[7], c0[8], c0[9], c0[10]];
+        let c = [c0[0], c0[1], c0[2], c0[3], c0[4], c0[5] * 4 + c0[6], c0[7], c0[8], c0[9], c0[10], c0[11]];
         let mut out = Vec::with_capacity(28);
         for i in 0..c.len() {
             for j in (i + 1)..c.len() {
@@ -418,7 +440,7 @@ fn tr_pairs(mode: Mode, ice: IceOpt) -> Vec<(Tr, Tr)> {
 
 /// Random valid point, built by construction: mode first, then only the values the mode allows.
 fn random_point() -> impl Strategy<Value = Point> {
-    (any::<[u16; 9]>()).prop_map(|r| {
+    (any::<[u16; 10]>()).prop_map(|r| {
         let pick = |x: u16, n: usize| crate::engine::pick(x, n);
         // WebRtc carries most of the lattice (all transport combinations): weight it accordingly
         const MODE_W: [Mode; 10] = [Mode::WebRtc, Mode::WebRtc, Mode::WebRtc, Mode::WebRtc, Mode::WebRtc, Mode::WebRtc, Mode::Srtp, Mode::Srtp, Mode::Rtp, Mode::Rtp];
@@ -454,6 +476,8 @@ fn random_point() -> impl Strategy<Value = Point> {
             latch,
             compat,
             offerer: SIDES[pick(r[6], 2)],
+            // the tight ranges are the interesting ones (the start index inside rustrtc is random: repeats wanted)
+            range: [PortRange::Default, PortRange::Default, PortRange::Wide, PortRange::Tight, PortRange::Tight, PortRange::Tight, PortRange::TightPlus1, PortRange::TightPlus1][pick(r[9], 8)],
         };
         debug_assert!(p.valid());
         p
@@ -506,7 +530,7 @@ impl PointTree {
     /// candidate with coordinate `c` reset to its default (bundle is re-derived); None if unchanged or invalid
     fn reset(p: &Point, c: usize) -> Option<Point> {
         // order of attempts: latch, ice, udp-mux (off, one side), then the rest
-        const ORDER: [usize; 16] = [0, 1, 13, 14, 15, 2, 3, 4, 5, 6, 7, 8, 9, 10, 11, 12];
+        const ORDER: [usize; 17] = [0, 1, 16, 13, 14, 15, 2, 3, 4, 5, 6, 7, 8, 9, 10, 11, 12];
         let c = ORDER[c];
         let mut q = *p;
         match c {
@@ -529,13 +553,14 @@ impl PointTree {
             13 => q.umux = UMux::Off,
             14 => q.umux = if p.umux == UMux::Both { UMux::Offerer } else { p.umux },
             15 => q.umux = if p.umux == UMux::Both { UMux::Answerer } else { p.umux },
+            16 => q.range = PortRange::Default,
             _ => return None,
         }
         q.bundle = Point::derived_bundle(q.media, q.compat);
         (q != *p && q.valid()).then_some(q)
     }
     fn advance(&mut self) -> bool {
-        while self.next_coord < 16 {
+        while self.next_coord < 17 {
             let c = self.next_coord;
             self.next_coord += 1;
             if let Some(q) = Self::reset(&self.cur, c) {
@@ -606,13 +631,47 @@ fn alloc_ports(n: u16) -> u16 {
 
 #[derive(Clone, Copy, Default)]
 struct Ports {
+    rtp_range: Option<(u16, u16)>,
     mux: Option<u16>,
     tcp_range: Option<(u16, u16)>,
+}
+
+impl Point {
+    /// Number of RTP sockets (even ports of the configured range) the endpoint in the given role binds.
+    fn rtp_sockets(&self, offerer_side: bool) -> u16 {
+        let (tr, muxed) = if offerer_side { (self.tr_off, self.umux.on_offerer()) } else { (self.tr_ans, self.umux.on_answerer()) };
+        let sections = (self.media.has_audio() as u16) + (self.media.has_video() as u16);
+        let per_section = if self.bundle == Bundle::NotOffered { sections.max(1) } else { 1 };
+        match self.mode {
+            // one UDP host socket, unless the shared mux socket (its own port) or no UDP host at all
+            Mode::WebRtc => (tr.has_udp() && !muxed) as u16,
+            // one socket per non-BUNDLE section; Rtp mode ignores the mux
+            Mode::Rtp => per_section,
+            // the first section's socket is the gathered host candidate (the mux socket if muxed), the others are direct
+            Mode::Srtp => per_section - (muxed as u16),
+        }
+    }
+}
+
+/// The point's RTP port range: fresh and disjoint from every other point's (counter-based, below the ephemeral range).
+fn rtp_range_for(p: &Point) -> Option<(u16, u16)> {
+    let need = (p.rtp_sockets(true) + p.rtp_sockets(false)).max(1);
+    let even_ports = match p.range {
+        PortRange::Default => return None,
+        PortRange::Wide => 50,
+        PortRange::Tight => need,
+        PortRange::TightPlus1 => need + 1,
+    };
+    // 2 * even_ports ports, starting on an even one (RTCP of a non-muxed section sits on the odd port above)
+    let base = alloc_ports(2 * even_ports + 1);
+    let start = base + (base % 2);
+    Some((start, start + 2 * (even_ports - 1)))
 }
 
 fn ports_for(p: &Point, side: Side) -> Ports {
     let tr = if side == p.offerer { p.tr_off } else { p.tr_ans };
     Ports {
+        rtp_range: None,
         // a fresh port per endpoint and point: re-binding a mux port right after its last session closed fails for up to
         // 250 ms on the unchanged tree (the old demux task still holds the socket)
         mux: (if side == p.offerer { p.umux.on_offerer() } else { p.umux.on_answerer() }).then(|| alloc_ports(1)),
@@ -642,6 +701,10 @@ fn config_for(p: &Point, side: Side, ports: Ports) -> RtcConfiguration {
     match p.ice {
         IceOpt::Plain => {}
         IceOpt::LiteA => c.enable_ice_lite = side == Side::A,
+    }
+    if let Some((start, end)) = ports.rtp_range {
+        c.rtp_start_port = Some(start);
+        c.rtp_end_port = Some(end);
     }
     if let Some(port) = ports.mux {
         c.ice_udp_mux = true;
@@ -704,8 +767,8 @@ fn video_params() -> RtpCodecParameters {
     RtpCodecParameters { payload_type: 96, name: "VP8".into(), clock_rate: 90000, channels: 0 }
 }
 
-fn build_end(p: &Point, side: Side) -> Result<End, Fail> {
-    let ports = ports_for(p, side);
+fn build_end(p: &Point, side: Side, rtp_range: Option<(u16, u16)>) -> Result<End, Fail> {
+    let ports = Ports { rtp_range, ..ports_for(p, side) };
     let pc = PeerConnection::new(config_for(p, side, ports));
     let mut end = End { pc, audio: None, video: None, mux_port: ports.mux };
     if p.media.has_audio() {
@@ -751,13 +814,18 @@ fn has_bundle(d: &SessionDescription) -> bool {
 const BURST: u32 = 300;
 const TAIL: u32 = 6;
 const TAIL_INTERVAL: Duration = Duration::from_millis(15);
-const TAIL_GAP: Duration = Duration::from_millis(150);
+const TAIL_GAP: Duration = Duration::from_millis(300);
 const RTP_TOTAL: u32 = BURST + TAIL;
 /// how long a reader keeps listening after the senders finished before the flow is judged
 const RTP_GRACE: Duration = Duration::from_millis(1500);
 /// data-channel message sizes per direction: below and above one SCTP DATA chunk (1200), above the MTU (several
 /// DTLS records per message), tiny ones in between
-const DC_SIZES: [usize; 16] = [1, 17, 300, 1200, 1201, 3000, 40, 9000, 64, 16000, 5, 2500, 1199, 700, 12000, 33];
+/// (fragment payload = 1172 bytes, sctp.rs DEFAULT_MAX_PAYLOAD_SIZE): the fragmentation boundaries - exact multiples of
+/// the fragment payload and +-1 around them, 1200 (the channel's own max_payload_size), 1, and the 64 KiB boundary.
+const DC_SIZES: [usize; 29] = [
+    1, 1171, 1172, 1173, 17, 1200, 1201, 2343, 2344, 2345, 40, 3516, 9000, 3515, 64, 3517, 11720, 5, 11719, 11721, 16000, 33,
+    65535, 65536, 65537, 1172, 700, 2344, 0,
+];
 
 fn point_digest(p: &Point) -> u64 {
     let mut h: u64 = 0xcbf29ce484222325;
@@ -1029,9 +1097,10 @@ async fn run_point_inner(p: Point, rec: &CaseRec) -> Check {
     if let Some(c) = p.violated_constraint() {
         return Err(Fail::new("harness:point-outside-lattice", format!("{}: {c}", p.tag())));
     }
-    let a = build_end(&p, Side::A)?;
+    let rtp_range = rtp_range_for(&p);
+    let a = build_end(&p, Side::A, rtp_range)?;
     let closer = Closer(vec![a.pc.clone()]);
-    let b = build_end(&p, Side::B)?;
+    let b = build_end(&p, Side::B, rtp_range)?;
     let _closer = {
         let mut c = closer;
         c.0.push(b.pc.clone());
@@ -1173,6 +1242,16 @@ async fn run_point_inner(p: Point, rec: &CaseRec) -> Check {
                     format!("{}: {who} reports Connected, the negotiated SDP has an application section, but it has no SCTP transport (sctp_diagnostic_info() is None)\n{sdp_ctx}", p.tag()),
                 ));
             }
+        }
+    }
+
+    // does the tight range really leave nothing free? (measures the socket-count model; not demanded)
+    if let (Some((start, end)), PortRange::Tight) = (rtp_range, p.range) {
+        let free = (start..=end).step_by(2).filter(|port| std::net::UdpSocket::bind(("127.0.0.1", *port)).is_ok()).count();
+        let need = p.rtp_sockets(true) + p.rtp_sockets(false);
+        rec.label(format!("{}/mode={:?}{}", if free == 0 { "tight-range-exhausted" } else { "tight-range-not-exhausted" }, p.mode, if need == 0 { "/no-rtp-socket-needed" } else { "" }));
+        if free != 0 && need != 0 && crate::engine::progress() {
+            eprintln!("[c10] tight range {start}..={end} has {free} free even port(s), model says {need} needed: {}", p.tag());
         }
     }
 
@@ -1398,6 +1477,7 @@ fn label_point(p: &Point, rec: &CaseRec) {
     rec.label(format!("ice={:?}", p.ice));
     rec.label(format!("tr={:?}/{:?}", p.tr_off, p.tr_ans));
     rec.label(format!("mode={:?}/umux={:?}", p.mode, p.umux));
+    rec.label(format!("mode={:?}/range={:?}", p.mode, p.range));
     rec.label(format!("latch={:?}", p.latch));
     rec.label(format!("compat={:?}", p.compat));
     rec.label(format!("offerer={:?}", p.offerer));
@@ -1514,7 +1594,7 @@ pub fn run(ctx: &mut Ctx) {
     ctx.level = "exploration";
     let all = all_points();
     ctx.rule = format!(
-        "lattice mode{{WebRtc,Srtp,Rtp}} x media{{audio,audio+video,dc,dc+audio,dc+audio+video}} x bundle{{offered,not}} x rtcp-mux{{Require,Negotiate}} x ice option{{plain,ice-lite on A}} x udp-mux side{{off,offerer,answerer,both}} x offerer transports x answerer transports (each of {{UDP, UDP+TCP, TCP passive listener only, TCP active only}}) x latching{{off,on/probation 0,on/probation 3}} x compat{{Standard,LegacySip}} x offerer{{A,B}}, pruned by the constraints rustrtc states itself (data channels only in WebRtc mode; ICE options and ICE-TCP only where ICE runs; the two ends share a transport protocol; active-only TCP is for the offering side; udp-mux (a fresh port per endpoint and point) only on a side that gathers UDP hosts, in every mode; latching only in Rtp mode; BUNDLE offered iff Standard and >1 section) to {} points. Quick: a covering array in which the (offerer transports, answerer transports) combination is one compound coordinate, so every transport combination meets every value of every other coordinate and all other value pairs meet too (seeded tie-breaks), plus 700 seeded random valid points (mode weighted 6:2:2); thorough: every point of the pruned product, 2 more passes and 1500 seeded random valid points. Each point: two PeerConnections on 127.0.0.1 with the same settings except role and per-side transports, documented non-trickle offer/answer, both Connected, then a concurrent exchange on a multi-thread runtime: per direction and media section an unpaced burst of {} RTP packets plus {} paced ones from its own task, and (if dc) 16 data-channel messages of 1..16000 bytes from a third task, both directions at once. Non-trivial = the point differs from the default configuration in >= 1 coordinate; distinct by point.",
+        "lattice mode{{WebRtc,Srtp,Rtp}} x media{{audio,audio+video,dc,dc+audio,dc+audio+video}} x bundle{{offered,not}} x rtcp-mux{{Require,Negotiate}} x ice option{{plain,ice-lite on A}} x udp-mux side{{off,offerer,answerer,both}} x offerer transports x answerer transports (each of {{UDP, UDP+TCP, TCP passive listener only, TCP active only}}) x latching{{off,on/probation 0,on/probation 3}} x compat{{Standard,LegacySip}} x offerer{{A,B}} x RTP port range{{default, 100 ports, tight = exactly the even ports the two endpoints need, tight+1; a fresh range per point shared by both endpoints}}, pruned by the constraints rustrtc states itself (data channels only in WebRtc mode; ICE options and ICE-TCP only where ICE runs; the two ends share a transport protocol; active-only TCP is for the offering side; udp-mux (a fresh port per endpoint and point) only on a side that gathers UDP hosts, in every mode; latching only in Rtp mode; BUNDLE offered iff Standard and >1 section) to {} points. Quick: a covering array in which the (offerer transports, answerer transports) combination is one compound coordinate, so every transport combination meets every value of every other coordinate and all other value pairs meet too (seeded tie-breaks), plus 580 seeded random valid points (mode weighted 6:2:2); thorough: every point of the pruned product and 1500 seeded random valid points. Tight-range cells of the array run 3 times and make up 5/8 of the random points (the port probe inside rustrtc starts at a random index). Each point: two PeerConnections on 127.0.0.1 with the same settings except role and per-side transports, documented non-trickle offer/answer, both Connected, then a concurrent exchange on a multi-thread runtime: per direction and media section an unpaced burst of {} RTP packets plus {} paced ones from its own task, and (if dc) 29 data-channel messages of 0..65537 bytes (fragmentation boundaries k*1172 and +-1, 1200, 64 KiB +-1) from a third task, both directions at once. Non-trivial = the point differs from the default configuration in >= 1 coordinate; distinct by point.",
         all.len(), BURST, TAIL
     );
     ctx.assumptions = vec![
@@ -1545,7 +1625,7 @@ pub fn run(ctx: &mut Ctx) {
         hits: Default::default(),
     });
     // seeded random valid points on top of the systematic part (repeats are wanted: the known races are probabilistic)
-    let extra = ctx.scale(700usize, 1500usize);
+    let extra = ctx.scale(580usize, 1500usize);
     let randoms: Vec<Point> = ctx.draw("random-points", extra, &random_point()).into_iter().map(|t| t.current()).collect();
     let known_det = ctx.is_known(SRTP_NONBUNDLE_AV);
     let in_known_shape = |p: &Point| p.mode == Mode::Srtp && p.media == Media::AudioVideo && p.bundle == Bundle::NotOffered;
@@ -1565,7 +1645,7 @@ pub fn run(ctx: &mut Ctx) {
     let mut list: Vec<Point> = Vec::new();
     if ctx.thorough() {
         list.extend(all.iter().copied());
-        let passes = 2;
+        let passes = 0;
         for _ in 0..passes {
             list.extend(steer(all.clone(), &mut skipped));
         }
@@ -1580,6 +1660,9 @@ pub fn run(ctx: &mut Ctx) {
             .unwrap_or_default();
         let arr = pairwise(&all, &keys);
         ctx.set_extra("pairwise_array_size", json!(arr.len()));
+        // the start index of rustrtc's port probe is random: the tight-range cells of the array run three times
+        let repeats: Vec<Point> = arr.iter().copied().filter(|p| matches!(p.range, PortRange::Tight | PortRange::TightPlus1)).collect();
+        let arr: Vec<Point> = arr.into_iter().chain(repeats.iter().copied()).chain(repeats.iter().copied()).collect();
         list.extend(steer(arr, &mut skipped));
         ctx.set_extra("full_product_passes", json!(0));
     }
@@ -1604,7 +1687,7 @@ mod tests {
     #[test]
     fn lattice_size_and_pairwise_cover() {
         let all = all_points();
-        assert_eq!(all.len(), 2368);
+        assert_eq!(all.len(), 9472);
         let arr = pairwise(&all, &[]);
         assert!(arr.len() < 80, "{}", arr.len());
     }
